@@ -452,6 +452,7 @@ CHECKS = {
             "covers": {"VerifC10Mixed": ["bad-ancestor", "re-announced", "valid-head-with-history"]},
         }],
         "assumptions": [
+            "document values in the document-store harnesses are single symbolic bytes below 0x80 (vstub.NdASCII): encoding/json replaces invalid UTF-8 inside strings by U+FFFD, which the idealised JSON model does not do; values with the high bit set are outside the claim (found when a passing path with such a value disagreed in the native translator validation)",
             "reader overlapping a write (VerifC16ReadRace, document store): a reader thread (Get and Query of one document) and a writer that overwrites or deletes it, every schedule with at most P preemptions (the reader may be suspended inside its read and finish after the write); when the write event is received and once both finished, Get and Query show the new revision (or nothing after a delete)",
             "content of replicated events (hook in VerifC10Mixed, also run under C10): every EventReplicated lists only entries the log holds at that instant - also when a fetched log of the batch was rejected by the join - and no entry is announced by two replicated events",
             "batch paths (VerifC16BatchFailure): PutBatch / PutAll of three documents while the k-th entry block write from now fails once (k in 0..3), the same call retried, then a Delete: every entry the log holds was carried by exactly one write event, emitted when the log holds it, and no event exists without an entry",
@@ -499,6 +500,7 @@ CHECKS = {
             "covers": {"VerifC01Grouping": ["grouped-and-separate"]},
         }],
         "assumptions": [
+            "document values in the document-store harnesses are single symbolic bytes below 0x80 (vstub.NdASCII): encoding/json replaces invalid UTF-8 inside strings by U+FFFD, which the idealised JSON model does not do; values with the high bit set are outside the claim (found when a passing path with such a value disagreed in the native translator validation)",
             "overlapping view rebuilds (VerifC06SeenThenPut, key-value store, also part of the C06 check): a local put overlaps the rebuild that ends a replication merge or a load, every schedule with at most P preemptions; afterwards the view equals the replay of the log the replica holds (the view is recomputed from the log on EVERY change)",
             "grouping of manual syncs (VerifC01Grouping): one identity writes from two devices that have not seen each other (two concurrent heads signed with the same key; distinct (time, key) pairs), another writer's chain is known to the second device; the heads (optionally with the other writer's, in either order) are given to a fresh replica in ONE Sync call and to another one call per head: same ordered entries, everything reachable listed",
             "two writers (real stores built by InitBaseStore over a shared block store) produce a history of STEPS steps, each a local write with symbolic key/value or a real head exchange (Sync -> replicator -> ipfs-log fetcher -> Join) in either direction, in any order; then both exchange heads and a fresh replica receives everything by one of five routes: manual sync in one batch, load from the writer's disk (cache heads + blocks, real Load), a snapshot saved by the writer (real SaveSnapshot / LoadFromSnapshot), the two writers' branches in separate batches followed by a restart from its own disk, or a PARTIAL load from disk (Load with a limit k, k any value below the log length) completed by the heads a lagging peer would announce, handed over by Sync or by LoadMoreFrom (entries below the loaded window, so the log's heads do not move)",
@@ -733,6 +735,7 @@ CHECKS = {
             "covers": {"VerifC07QueryMany": ["many-documents"]},
         }],
         "assumptions": [
+            "document values in the document-store harnesses are single symbolic bytes below 0x80 (vstub.NdASCII): encoding/json replaces invalid UTF-8 inside strings by U+FFFD, which the idealised JSON model does not do; values with the high bit set are outside the claim (found when a passing path with such a value disagreed in the native translator validation)",
             "reader overlapping a write (VerifC16ReadRace, document store): a reader thread (Get and Query of one document) and a writer that overwrites or deletes it, every schedule with at most P preemptions (the reader may be suspended inside its read and finish after the write); when the write event is received and once both finished, Get and Query show the new revision (or nothing after a delete)",
             "larger states (VerifC07QueryMany): a store holding M live documents, M in {3, 16, 17, 19, 23} (one more was put and deleted again); Query of everything, Query of a predicate and a partial Get return exactly the matching live documents, each once",
             "listing of N operations (PUT / DEL / PUTALL of two documents) with symbolic printable-ASCII keys without spaces, symbolic 1-byte document bodies; earlier index state from an arbitrary sub-listing",
